@@ -17,7 +17,8 @@ EXPLANATION = (
     "reference dictionary with the binary reference list before returning Ok; (R4) RNEXT '=' is produced only by "
     "write_mate_reference_sequence_name (comparison of the two names) and expanded by the parser's mate arm."
     " (R5) reused destination: every entry->Ok path of parse_record_buf and try_clone_from_alignment_record overwrites or clears each of the twelve columns (a `*` sentinel must reset the column, not skip it); (R6) append-buffer discipline: every read_line/read_until site of the SAM readers and of the BAM header's text reader is preceded, on all entry paths and all cycles, by a reset of the buffer it appends to."
-    " (R7) the SAM-text header sub-reader state machine (sam, bam, cram; sync and async) performs per trait method the same constant stores into its state fields as the majority of its ten copies.")
+    " (R7) the SAM-text header sub-reader state machine (sam, bam, cram; sync and async) performs per trait method the same constant stores into its state fields as the majority of its ten copies."
+    " R3 also decides that the binary reference list replaces the text dictionary only behind the is_empty() edge (sync and async), so @SQ fields that exist only in the text are not dropped.")
 ASSUMPTIONS = ["float formatting/parsing, integer width selection for `i` tags and the header grammar are value-level (unit tests)"]
 NOT_DECIDED = ["float text forms, integer tag widths, fixed-point byte equality, full header record grammar and field order",
                "equality of SAM- and BAM-read records beyond the shared data model"]
@@ -150,6 +151,31 @@ def run(ctx):
                 ctx.violation("C06.R3", "C06.R3/unused-comparison/" + k, "%s computes reference_sequences_eq but does not branch on it" % k, f.loc())
     if not ok:
         ctx.violation("C06.R3", "C06.R3/no-dictionary-check", "no BAM header reader compares the SAM-text reference dictionary with the binary reference list")
+
+    # the binary list replaces the text dictionary only when the text has none: @SQ fields beyond SN/LN (M5, AS, SP, UR, user tags)
+    # exist only in the text, so an unconditional overwrite loses them
+    nov = 0
+    for k in sorted(k2 for k2 in fb.fns if re.search(r"noodles_bam::(r#async::)?io::reader::header::read_header_inner(::\{closure#0\})?$", k2)):
+        f = fb.fns[k]
+        if f.is_async and not f.coro:
+            continue
+        setters = [c["dest"][0] for b, c in f.calls() if (c.get("f") or "").endswith("Header::reference_sequences_mut")]
+        stores = [bi for bi, blk in enumerate(f.blocks) if not blk.get("cu") for st in blk["s"]
+                  if st[0] == "=" and st[1][1] == ["*"] and st[1][0] in setters]
+        if not stores:
+            continue
+        nov += 1
+        ctx.saw_fn(f)
+        sws = [(sb, tt, ft) for sb, tt, ft, c in R.switch_on_call(f, r"::is_empty$")
+               if any(R.derives_from_call(f, a_, R.mk_pred(r"Header::reference_sequences$")) for a_ in c["args"])]
+        guarded = sws and all(sb_ not in C.reachable(f, 0, removed_edges={(sb, tt) for sb, tt, ft in sws}) for sb_ in stores)
+        if guarded:
+            ctx.ok("C06.R3", k + " :: text dictionary replaced only when it is empty", "%d store(s) behind the is_empty() edge" % len(stores), f.loc(stores[0]))
+        else:
+            ctx.violation("C06.R3", "C06.R3/unconditional-overwrite/" + f.root,
+                          "%s overwrites the header's reference sequences with the binary list on a path where the SAM-text dictionary is not "
+                          "empty: every @SQ field other than SN/LN is dropped when the BAM is read" % f.root, f.loc(stores[0]))
+    ctx.floor("C06.R3", "BAM header readers that adopt the binary reference list", nov, 2)
 
     ctx.rule("C06.R4", "A3 pairing: RNEXT '=' produced only by the mate-name writer and expanded by the parser's mate arm")
     eqs = [k for k, c in fb.consts.items() if k.startswith(S) and c.get("v", c.get("raw")) in (0x3d, "3d") and re.search(r"(EQ|SAME|IDENTICAL)", k.split("::")[-1])]
